@@ -6,12 +6,15 @@ import (
 	"bytes"
 	"fmt"
 	"sort"
+	"strings"
 
 	"github.com/anishathalye/porcupine"
 	"github.com/lugu/qiloop/bus"
 	"github.com/lugu/qiloop/type/basic"
+	"github.com/lugu/qiloop/type/object"
 	"github.com/lugu/qiloop/type/value"
 
+	"verif/rt/vnet"
 	"verif/rt/vrt"
 	"verif/scenarios/fx"
 	"verif/scenarios/probe"
@@ -106,6 +109,7 @@ func body(fine bool) func() {
 				events = append(events, v)
 			}
 		})
+		local := probe.MakeProbe(nil, bus.NewProxy(bus.DirectClient(w.Actor), object.FullMetaObject(probe.ProbeMeta()), w.ServiceID, 1))
 		variant := w2ops[vrt.ChooseFree(len(w2ops), "second-writer")]
 		vrt.Explore()
 		vrt.SetFine(fine)
@@ -177,8 +181,15 @@ func body(fine bool) func() {
 			set(3, -3, func() error { return w.Root.Helper.UpdateLevel(-3) })
 		})
 		w4 := vrt.GoWorker("leaver", func() { cancel5() })
+		// a local proxy of the same object (bus.DirectClient, as every
+		// generated Create<X> constructor hands out): its requests go
+		// through a second mailbox and overlap those of the remote clients
+		w5 := vrt.GoWorker("local-proxy", func() {
+			set(4, -6, func() error { return local.SetLevel(-6) })
+			set(4, 6, func() error { return local.SetLevel(6) })
+		})
 		vrt.Quiesce()
-		fx.Settle(w1, w2, w3, w4)
+		fx.Settle(w1, w2, w3, w4, w5)
 		if wrongAccepted != "" {
 			vrt.Failf("wrongly-typed-write-accepted/"+wrongAccepted, "setProperty(level, %s) reported success", wrongAccepted)
 		}
@@ -393,8 +404,95 @@ func histories(sameClient bool) func() {
 		vrt.Observe("order=%d third=%d mode=%d", order, third, mode)
 	}
 }
+// brokenSubscriber: one of the subscribers sits behind a connection the
+// server can no longer write to (and is still registered). Writes by a client
+// and by the service are judged as usual: stored, readable, announced once to
+// the healthy subscriber.
+func brokenSubscriber() {
+	w := fx.Start(bus.Yes{})
+	cw, ch, cx := w.MustConnect(), w.MustConnect(), w.MustConnect()
+	pW, pH, pX := cw.Probe(1), ch.Probe(1), cx.Probe(1)
+	first := vrt.ChooseFree(2, "broken-subscriber-registered-first") == 1
+	var events []int32
+	subH := func() {
+		_, c, err := pH.SubscribeLevel()
+		if err != nil {
+			vrt.Failf("harness/subscribe", "%v", err)
+			return
+		}
+		vrt.GoNamed("drain-H", func() {
+			for v := range c {
+				events = append(events, v)
+			}
+		})
+	}
+	subX := func() {
+		if _, c, err := pX.SubscribeLevel(); err == nil {
+			vrt.GoNamed("drain-X", func() {
+				for range c {
+				}
+			})
+		} else {
+			vrt.Failf("harness/subscribe", "%v", err)
+		}
+	}
+	if first {
+		subX()
+		subH()
+	} else {
+		subH()
+		subX()
+	}
+	vrt.Quiesce()
+	// from now on every write of the server towards X fails; X stays connected
+	cx.Raw.Peer().OnOp = func(kind string, idx int) *vnet.Fault {
+		if kind == "write" {
+			return &vnet.Fault{Kind: "werr"}
+		}
+		return nil
+	}
+	vrt.Explore()
+	var accepted []int32
+	current := int32(probe.InitialLevel)
+	judge := func(what string, v int32, err error) {
+		serviceSide := strings.HasPrefix(what, "Update")
+		got, gerr := pW.GetLevel()
+		switch {
+		case gerr != nil:
+			vrt.Failf("get-failed/broken-subscriber", "GetLevel failed after %s: %v", what, gerr)
+		case err == nil && got != v:
+			vrt.Failf("write-lost/broken-subscriber", "%s succeeded but GetLevel returns %d", what, got)
+		case err != nil && got != current && !serviceSide:
+			vrt.Failf("refused-write-took-effect/broken-subscriber", "%s was answered with an error (%v) but GetLevel now returns %d instead of %d", what, err, got, current)
+		case err != nil && serviceSide && got != v && got != current:
+			// the service-side helper may report the unreachable subscriber
+			// to its local caller (not judged, as for signals in C13); the
+			// value is either stored or not
+			vrt.Failf("write-lost/broken-subscriber", "%s reported %v and GetLevel returns %d", what, err, got)
+		}
+		if gerr == nil && got == v && v != current {
+			accepted = append(accepted, v)
+			current = v
+		}
+	}
+	judge("SetLevel(5)", 5, pW.SetLevel(5))
+	vrt.Quiesce()
+	judge("UpdateLevel(9)", 9, w.Root.Helper.UpdateLevel(9))
+	vrt.Quiesce()
+	if err := pW.SetLevel(-4); err == nil {
+		vrt.Failf("invalid-write-accepted/broken-subscriber", "SetLevel(-4) succeeded")
+	}
+	judge("SetLevel(7)", 7, pW.SetLevel(7))
+	vrt.Quiesce()
+	if fmt.Sprint(events) != fmt.Sprint(accepted) {
+		vrt.Failf("events-differ-from-accepted-writes/broken-subscriber", "values stored %v, change events received by the healthy subscriber %v", accepted, events)
+	}
+	vrt.Observe("first=%v accepted=%v events=%v", first, accepted, events)
+}
 
 func init() {
+	reg.Register(&reg.Scenario{Property: "C14", Name: "broken-subscriber", Body: brokenSubscriber, Quick: 1, Thorough: 2,
+		Doc: "a subscriber behind a connection the server cannot write to any more is still registered; a client and the service write: stored values are readable and announced exactly once to the healthy subscriber; a write answered with an error changes nothing"})
 	reg.Register(&reg.Scenario{Property: "C14", Name: "histories-same-client", Body: histories(true), Quick: 0, Thorough: 1,
 		Doc: "sequential: A subscribes, B subscribes (same client), they leave in either order, C subscribes and leaves; after every step a client write by name, a refused one, a wrongly typed one, a service update, a refused service update, a write by numeric id and a read; object plain / with statistics / with tracing"})
 	reg.Register(&reg.Scenario{Property: "C14", Name: "histories-two-connections", Body: histories(false), Quick: 0, Thorough: 1,
